@@ -68,7 +68,10 @@ Schemas == <<
   [text |-> "#D: {a?: {b: int}}; {#D}",       t |-> Tree("open", {}, {Emb("def", {D("opt", "a", "N")})})],
   [text |-> "#D: {a?: {b: int}}; {#D, b?: int}", t |-> Tree("open", {D("opt", "b", "int")}, {Emb("def", {D("opt", "a", "N")})})],
   [text |-> "#D: close({a?: {b: int}}); {#D}", t |-> Tree("open", {}, {Emb("def", {D("opt", "a", "N")})})],
-  [text |-> "#D: close({a?: {b: int}})",      t |-> Tree("def", {D("opt", "a", "N")}, {})]
+  [text |-> "#D: close({a?: {b: int}})",      t |-> Tree("def", {D("opt", "a", "N")}, {})],
+  \* open structs with (open) embeddings at two nesting levels stay open at both
+  [text |-> "{{b?: int}, a?: {{c?: int}, b: int}}", t |-> Tree("open", {D("opt", "a", "N")}, {Emb("open", {D("opt", "b", "int")})})],
+  [text |-> "{{}, a?: {{}, b: int}}",         t |-> Tree("open", {D("opt", "a", "N")}, {Emb("open", {})})]
 >>
 NS == Len(Schemas)
 
